@@ -81,7 +81,7 @@ class C20(Prop):
             '<=> text does not end in \\n/\\r. Crashes are bucketed by (exception type, innermost parso function). '
             'Non-trivial: >=1 issue reported or the tree has a bracket/backslash continuation line.')
     assumptions = ['crash buckets listed in known_findings.json are carried as findings; any other bucket is a violation']
-    budgets = {'quick': 48000, 'thorough': 600000}
+    budgets = {'quick': 48000, 'thorough': 1800000}
 
     def strategy(self, tier):
         kinds = ('repo',) if tier == 'quick' else ('repo', 'stdlib3.12')
